@@ -1037,7 +1037,7 @@ def run(ck, tier, rng):
     ck.dist["operations-raising"] = n_err
     for e in ("Key", "Index", "Value"):
         ck.dist["operations-raising-" + e] = sum(o.count("#err:%s@" % e) for o in impl_out)
-    concrete_before = len(ck.violations) + len(ck.known_hits)
+    concrete_before = len(ck.violations)
     diffs = 0
     tables = None
     exe = os.path.join(COQ, "extract", "run_c13")
@@ -1075,7 +1075,7 @@ def run(ck, tier, rng):
         for n in names[:3]:
             if sorted(int(t) for t in f[names.index(n)].split(" ") if t) != sorted(m[n]):
                 ck.violation("tables", "model and translator disagree on %s" % n, {"theorem_or_correspondence": "C13_partial_maps_exact"}, concrete=False)
-    any_concrete = any(v["concrete"] for v in ck.violations) or bool(ck.known_hits)
+    any_concrete = any(v["concrete"] for v in ck.violations)
     ck.broken_build(oracle_found_concrete=any_concrete)
     return ck.finish(
         rule="every layout of each of the %d decks under /repo (one history per deck: add a slide from every layout, edits, repeated additions, notes slides) + %d directed layouts (each placeholder type x idx/orient/sz/xfrm variants, duplicated) + generated populations of master / one layout / notes master of the default template with histories of 4-14 operations (one in six with out-of-range indices and values) + histories on the decks that carry a notes master; non-trivial = the history created a slide with at least two placeholders or a notes slide with at least one"
